@@ -571,6 +571,68 @@ def fsync_fault(hist, ck, tag):
     return None
 
 
+# ---------------------------------------------------------------- restart with the clock set back
+def clock_back_reopen(ctx, ck, tag):
+    """the data file (uncrashed, and one crash image) is reopened when the wall clock is BEHIND its last
+    transaction (restart after the clock was stepped back), one transaction is committed with a clock tid,
+    the file is reopened: transaction ids must keep increasing in commit order and the reopened file must
+    show the old transactions plus the new one.  Returns (sig, what) | None"""
+    import clock
+    from ZODB.FileStorage import FileStorage
+    from ZODB.Connection import TransactionMetaData
+    from persistent.TimeStamp import TimeStamp
+    if len(ctx.txs) == 0:
+        return None
+    images = [('uncrashed file', ctx.rr.final)]
+    votes = [(k, e) for k, e in enumerate(ctx.rr.events) if e[0] == 'write' and e[1] == 'Data.fs' and len(e[3]) > 30]
+    if votes:
+        k, e = votes[-1]
+        img = dict(ctx.rr.init)
+        vfs.apply_events(img, ctx.rr.events[:k])
+        tmpi = {'Data.fs': img.get('Data.fs', b'')}
+        vfs.apply_events(tmpi, [e], nbytes_last=len(e[3]) - 3)
+        images.append(('crash image', tmpi['Data.fs']))
+    for name, data in images:
+        wd = os.path.join(ck.tmp, 'clk-' + tag)
+        L.write_dir(wd, {'Data.fs': data})
+        path = os.path.join(wd, 'Data.fs')
+        try:
+            fs = FileStorage(path)
+            old = [L.u64(t.tid) for t in fs.iterator()]
+            if not old:
+                fs.close()
+                continue
+            with clock.scripted(start=TimeStamp(L.p64(old[-1])).timeTime() - 120.0, step=0.25):
+                fs.close()
+                fs = FileStorage(path)                  # the restart: clock two minutes behind the last tid
+                md = TransactionMetaData(b'', b'after the clock was set back', b'')
+                fs.tpc_begin(md)                        # tid from the clock
+                fs.store(L.p64(0x5151), L.Z64, b'written after the restart', '', md)
+                fs.tpc_vote(md)
+                new = L.u64(fs.tpc_finish(md))
+                fs.close()
+            ck.count('clock-back-reopens')
+            if new <= old[-1]:
+                return ('C01:tid-not-increasing-after-reopen', '%s reopened with the clock 120 s behind its last transaction: '
+                        'the next commit got tid %x, not above the last committed %x (transactions are no longer in '
+                        'commit order)' % (name, new, old[-1]))
+            fs = FileStorage(path)
+            try:
+                now = [L.u64(t.tid) for t in fs.iterator()]
+                last = L.u64(fs.lastTransaction())
+                got = fs.load(L.p64(0x5151), '')
+            finally:
+                fs.close()
+            if now != old + [new] or last != new or got != (b'written after the restart', L.p64(new)):
+                return ('C01:not-a-prefix:after-clock-back-reopen', '%s, clock set back, one commit, reopen: transactions %s '
+                        '(expected %s), lastTransaction %x' % (name, ['%x' % x for x in now],
+                                                               ['%x' % x for x in old + [new]], last))
+        except Exception as e:
+            return ('C01:open-raised:after-clock-back', '%s reopened with the clock behind its last transaction: %s %s'
+                    % (name, L.ename(e), str(e)[:160]))
+    return None
+
+
 def case_of(hist, cut=None):
     return dict(history=hist, cut=cut)
 
@@ -671,6 +733,11 @@ def main(argv=None):
                 len(ctx.rr.final) <= 20000 and hi % 2 == 0:
             for sig, what, case in double_crash(hist, ctx, ck, 'h%d' % hi, pool, ck.rng, tier):
                 ck.violation(sig, what, case)
+        if ctx.rr is not None and hasattr(ctx, 'ends') and len(ctx.rr.final) <= 20000:
+            cb = clock_back_reopen(ctx, ck, 'h%d' % hi)
+            ck.case([ctx.hid, 'clock-back-reopen'], True, None)
+            if cb:
+                ck.violation(cb[0], cb[1], case_of(hist))
         if ctx.rr is not None and ck.replay_path is None:
             ff = fsync_fault(hist, ck, 'h%d' % hi)
             ck.case([ctx.hid, 'fsync-fault'], True, None)
